@@ -37,6 +37,35 @@ type env struct {
 	fr   *frame
 	lazy func(name string) (TV, bool)
 	inOld bool
+	// entry: parameters that the function reassigns before the point this environment describes: the plain
+	// name denotes the variable's current value there (through lazy), old(name) its value at entry
+	entry map[string]TV
+}
+
+// shadowReassigned moves the parameters that have been reassigned on the way to block b out of vars, so
+// that their name resolves to the current value.
+func (en *env) shadowReassigned(fr *frame, b *ssa.BasicBlock) {
+	if b == nil {
+		return
+	}
+	for _, p := range fr.fn.Params {
+		tv, ok := en.vars[p.Name()]
+		if !ok {
+			continue
+		}
+		nv := fr.r.E.namedValueAt(fr.fn, p.Name(), b)
+		if nv == nil || nv == ssa.Value(p) {
+			continue
+		}
+		if _, isParam := nv.(*ssa.Parameter); isParam {
+			continue
+		}
+		if en.entry == nil {
+			en.entry = map[string]TV{}
+		}
+		en.entry[p.Name()] = tv
+		delete(en.vars, p.Name())
+	}
 }
 
 func (en *env) errf(format string, a ...interface{}) {
@@ -200,6 +229,9 @@ func (en *env) ident(name string) TV {
 		return TV{V: Scalar{c.IntC(0)}, T: types.Typ[types.UntypedNil]}
 	}
 	if tv, ok := en.vars[name]; ok {
+		return tv
+	}
+	if tv, ok := en.entry[name]; ok && en.inOld {
 		return tv
 	}
 	if en.lazy != nil {
@@ -804,10 +836,26 @@ func (en *env) call(x *ast.CallExpr, want types.Type) TV {
 				return TV{V: Scalar{sv.Off}, T: types.Typ[types.Uint64]}
 			}
 			es := r.scalarSort(sv.Base.T)
+			suffix := ""
+			if len(x.Args) == 2 {
+				// arr(s, Field): the array of field Field over the elements of a slice of structs
+				fid, isIdent := x.Args[1].(*ast.Ident)
+				st, isStruct := sv.Base.T.Underlying().(*types.Struct)
+				if !isIdent || !isStruct {
+					en.errf("arr(s, Field) needs a slice of structs and a field name")
+				}
+				es = nil
+				for i := 0; i < st.NumFields(); i++ {
+					if st.Field(i).Name() == fid.Name {
+						es = r.scalarSort(st.Field(i).Type())
+						suffix = "." + fid.Name
+					}
+				}
+			}
 			if es == nil {
 				en.errf("arr() of a slice with non-scalar elements")
 			}
-			h := en.state().getPV(sv.Base.Heap+"[]", r.heapSort(len(sv.Base.Idxs)+1, es))
+			h := en.state().getPV(sv.Base.Heap+"[]"+suffix, r.heapSort(len(sv.Base.Idxs)+1, es))
 			for _, i := range sv.Base.Idxs {
 				h = c.Select(h, i)
 			}
@@ -870,6 +918,7 @@ func (en *env) call(x *ast.CallExpr, want types.Type) TV {
 					if !ln.HasBound {
 						// (typing fact, as for len(s) executed in code)
 						r.assume(c.True(), r.sle(r.idxConst(0), ln))
+						r.assume(c.True(), r.sle(ln, r.idxConst(r.sliceBound())))
 					}
 					return TV{V: Scalar{ln}, T: types.Typ[types.Int]}
 				}
@@ -1320,9 +1369,9 @@ func (en *env) havoc(m ast.Expr, at *node) {
 		if !ok {
 			en.errf("modifies %T[..]", base.V)
 		}
-		es := r.scalarSort(sv.Base.T)
-		if es == nil {
-			en.errf("modifies range of non-scalar elements")
+		var cells []leafCell
+		if !r.leafCells(sv.Base.T, "", &cells) {
+			en.errf("modifies range of elements of type %s", sv.Base.T)
 		}
 		lo := r.idxConst(0)
 		hi := sv.Len
@@ -1334,30 +1383,34 @@ func (en *env) havoc(m ast.Expr, at *node) {
 			t := en.coerceTo(en.eval(x.High, types.Typ[types.Int]), types.Typ[types.Int])
 			hi = en.scalar(t)
 		}
-		heap := sv.Base.Heap + "[]"
-		hs := r.heapSort(len(sv.Base.Idxs)+1, es)
-		h := at.getPV(heap, hs)
 		if len(sv.Base.Idxs) != 1 {
 			en.errf("modifies range of an embedded array")
 		}
 		ref := sv.Base.Idxs[0]
-		oldArr := c.Select(h, ref)
-		// constant small ranges: store chain of fresh values; otherwise fresh array + frame axiom
-		if lo.IsConst() && hi.IsConst() && hi.SVal().Int64()-lo.SVal().Int64() <= 32 {
-			arr := oldArr
-			for k := lo.SVal().Int64(); k < hi.SVal().Int64(); k++ {
-				arr = c.Store(arr, r.iadd(sv.Off, r.idxConst(k)), c.Fresh("havoc.elem", es))
+		// one heap per memory cell of the element type (a single one for scalar elements)
+		for _, lc := range cells {
+			es := lc.sort
+			heap := sv.Base.Heap + "[]" + lc.suffix
+			hs := r.heapSort(len(sv.Base.Idxs)+1, es)
+			h := at.getPV(heap, hs)
+			oldArr := c.Select(h, ref)
+			// constant small ranges: store chain of fresh values; otherwise fresh array + frame axiom
+			if lo.IsConst() && hi.IsConst() && hi.SVal().Int64()-lo.SVal().Int64() <= 32 {
+				arr := oldArr
+				for k := lo.SVal().Int64(); k < hi.SVal().Int64(); k++ {
+					arr = c.Store(arr, r.iadd(sv.Off, r.idxConst(k)), c.Fresh("havoc.elem", es))
+				}
+				at.setPV(heap, c.Store(h, ref, arr))
+				continue
 			}
-			at.setPV(heap, c.Store(h, ref, arr))
-			return
+			fresh := c.Fresh("havoc.arr", oldArr.Sort)
+			j := c.BoundVar("j", r.idx())
+			inRange := c.And(r.sle(r.iadd(sv.Off, lo), j), r.slt(j, r.iadd(sv.Off, hi)))
+			frame := c.Forall([]*smt.Term{j}, c.Implies(c.Not(inRange), c.Eq(c.Select(fresh, j), c.Select(oldArr, j))),
+				[]*smt.Term{c.Select(fresh, j)})
+			r.assume(c.True(), frame)
+			at.setPV(heap, c.Store(h, ref, fresh))
 		}
-		fresh := c.Fresh("havoc.arr", oldArr.Sort)
-		j := c.BoundVar("j", r.idx())
-		inRange := c.And(r.sle(r.iadd(sv.Off, lo), j), r.slt(j, r.iadd(sv.Off, hi)))
-		frame := c.Forall([]*smt.Term{j}, c.Implies(c.Not(inRange), c.Eq(c.Select(fresh, j), c.Select(oldArr, j))),
-			[]*smt.Term{c.Select(fresh, j)})
-		r.assume(c.True(), frame)
-		at.setPV(heap, c.Store(h, ref, fresh))
 		return
 	}
 	en.errf("unsupported modifies target %s", types.ExprString(m))
